@@ -81,7 +81,7 @@ func checkC17Scal(t *Toks) string {
 	}
 	want.Mod(want, secpN)
 	if err != nil {
-		// classify the input on which the helper refuses to answer
+		// every input of the domain must be answered (repaired by 9f323e4); name the class for the replay
 		detail := "unexpected"
 		switch c.op {
 		case "sub":
